@@ -113,6 +113,18 @@ fn is_known(known: &KnownFindings, prop: &str, class: &str) -> Option<String> {
     known.findings.iter().find(|f| f.status == "open" && f.property == prop && f.class == class).map(|f| f.what.clone())
 }
 
+static HEART: std::sync::OnceLock<std::fs::File> = std::sync::OnceLock::new();
+static HEART_N: std::sync::atomic::AtomicU64 = std::sync::atomic::AtomicU64::new(1 << 32);
+
+/// Progress heartbeat for the coordinator's watchdog (second word of the worker's status file);
+/// called by the engine every few steps so that a legitimately long run is not mistaken for a hang.
+pub fn heartbeat() {
+    if let Some(f) = HEART.get() {
+        let n = HEART_N.fetch_add(1, std::sync::atomic::Ordering::Relaxed);
+        let _ = f.write_at(&n.to_le_bytes(), 8);
+    }
+}
+
 pub struct Budget {
     pub units: u64,
 }
@@ -179,10 +191,7 @@ struct Worker<'e> {
 
 impl<'e> Worker<'e> {
     fn beat(&mut self) {
-        if let Some((f, n)) = &mut self.heartbeat {
-            *n += 1;
-            let _ = f.write_at(&n.to_le_bytes(), 8);
-        }
+        heartbeat();
     }
 
     fn absorb(&mut self, out: &RunOut) {
@@ -405,6 +414,9 @@ pub fn worker_main(args: &[String]) -> i32 {
     let mut w = Worker { env: &env, prop: prop.clone(), pbit, thorough, verif_seed, known: load_known(), res: WorkerResult::default(), digests: Vec::new(), states: Vec::new(), no_min, wa, max_viol: 3, heartbeat: None };
     let status = std::fs::OpenOptions::new().create(true).write(true).truncate(true).open(prefix.with_extension("status")).expect("status file");
     w.heartbeat = status.try_clone().ok().map(|f| (f, 0));
+    if let Ok(f) = status.try_clone() {
+        let _ = HEART.set(f);
+    }
     for idx in from..to {
         let _ = status.write_at(&idx.to_le_bytes(), 0);
         let r = std::panic::catch_unwind(std::panic::AssertUnwindSafe(|| w.unit(idx)));
